@@ -42,7 +42,7 @@ REPRO = {
 
 
 def prank(p):
-    return 0 if p <= 2 else 1 if p == 3 else 2
+    return 0 if p <= 2 or p == 7 else 1 if p in (3, 8) else 2
 
 
 def mc_cfg(nh, kinds, progs, ops, maxgen, errors, toggles, mortal, spec, checks):
@@ -321,28 +321,30 @@ def run(ctx):
                 ("core7", (1, "KindsABC", [1, 7, 8], 7, 2, False, [], False)),       # emitter left in a user section / unfinished emission
                 ("sec", (1, "KindsABC", [2, 7], 8, 2, False, [], False)),
                 ("open", (1, "KindsBC", [3, 4, 8], 7, 2, False, [], True)),
+                ("abandon", (1, "KindsC1", [4, 8, 9], 8, 2, False, [], False)),       # cancelled compilations (local + global const pools pending)
                 ("links", (2, "KindsABC", [1], 4, 1, True, T4, True)),
                 ("comp", (1, "KindsC1", [4, 5, 6], 8, 2, False, ["HEh"], False)),
                 ("two", (2, "KindsAC", [2, 6], 6, 2, False, ["HLog"], True))]
-        sims = [("simA", (2, "KindsABC", [1, 2, 3, 4, 5, 6, 7, 8], 16, 3, True, T4, True), 200),
-                ("simB", (2, "KindsCCA", [2, 4, 5, 6, 7, 8], 14, 2, False, ["HEh", "ELog"], True), 150)]
+        sims = [("simA", (2, "KindsABC", [1, 2, 3, 4, 5, 6, 7, 8, 9], 16, 3, True, T4, True), 200),
+                ("simB", (2, "KindsCCA", [2, 4, 5, 6, 7, 8, 9], 14, 2, False, ["HEh", "ELog"], True), 150)]
         arena = ("arena", (1, "KindsAC", [1, 6], 7, 2, False, [], False))
     else:
         plan = [("core", (1, "KindsABC", [1, 3, 5], 9, 2, False, [], False)),
                 ("core7", (1, "KindsABC", [1, 7, 8], 8, 2, False, [], False)),
                 ("sec", (1, "KindsABC", [2, 7], 9, 2, False, [], True)),
-                ("open", (1, "KindsBC", [3, 4, 8], 8, 2, False, ["HEh"], True)),
+                ("open", (1, "KindsBC", [3, 4, 8, 9], 8, 2, False, ["HEh"], True)),
+                ("abandon", (1, "KindsC1", [4, 5, 8, 9], 10, 3, False, [], True)),
                 ("core2", (1, "KindsBC", [2, 3, 4, 6], 8, 2, False, ["HLog"], False)),
                 ("links", (2, "KindsABC", [1, 7], 5, 1, True, T4, True)),
                 ("comp", (1, "KindsC1", [4, 5, 6, 8], 10, 3, False, ["HEh"], True)),
                 ("two", (2, "KindsAC", [2, 6, 7], 7, 2, False, ["HLog"], True)),
                 ("cca", (2, "KindsCCA", [1, 5], 6, 2, False, [], False))]
-        sims = [("simA", (2, "KindsABC", [1, 2, 3, 4, 5, 6, 7, 8], 24, 3, True, T4, True), 1500),
-                ("simB", (2, "KindsCCA", [2, 4, 5, 6, 7, 8], 20, 3, False, ["HEh", "ELog"], True), 800),
-                ("simC", (2, "KindsBCB", [1, 3, 5, 6, 7, 8], 20, 3, True, ["HLog", "EEh"], True), 800)]
+        sims = [("simA", (2, "KindsABC", [1, 2, 3, 4, 5, 6, 7, 8, 9], 24, 3, True, T4, True), 1500),
+                ("simB", (2, "KindsCCA", [2, 4, 5, 6, 7, 8, 9], 20, 3, False, ["HEh", "ELog"], True), 800),
+                ("simC", (2, "KindsBCB", [1, 3, 5, 6, 7, 8, 9], 20, 3, True, ["HLog", "EEh"], True), 800)]
         arena = ("arena", (1, "KindsAC", [1, 6], 8, 2, False, [], False))
-    caps = {"core": 700, "core7": 1200, "sec": 900, "open": 600, "links": 600, "comp": 400, "two": 500} if q else \
-        {"core": 6000, "core7": 5000, "sec": 4000, "open": 3500, "core2": 4000, "links": 6000, "comp": 3500, "two": 3000, "cca": 3000}
+    caps = {"core": 700, "core7": 1200, "sec": 900, "open": 600, "abandon": 700, "links": 600, "comp": 400, "two": 500} if q else \
+        {"core": 6000, "core7": 5000, "sec": 4000, "open": 3500, "abandon": 4000, "core2": 4000, "links": 6000, "comp": 3500, "two": 3000, "cca": 3000}
     for name, args in plan:
         hs += export_histories(ctx, name, args, cap=caps.get(name))
     for name, args, n in sims:
@@ -424,9 +426,15 @@ def run(ctx):
     tcfg = trace_cfg(ctx, known)
     nrec = 0
     seen = set()
+    notes = {"dirty": 0}
     for tag, paths in traces:
         for p in paths:
             for rec in vlib.read_ndjson(p):
+                if rec.get("e") in ("Detach", "Reinit", "ResetH", "End"):
+                    for e_ in rec.get("E", []):
+                        pv = e_.get("priv", [])
+                        if e_.get("alive") and len(pv) in (10, 14) and pv[5 if len(pv) == 10 else 9] == 1:
+                            notes["dirty"] += 1
                 if rec.get("e") in ("Gen", "Seal"):
                     ctx.distinct.add((tag.split("_")[0], json.dumps(rec.get("seq")), rec["dig"][4] if rec["e"] == "Seal" else rec["dig"][0]))
                     if len(ctx.samples) < 3 and rec["e"] == "Seal" and json.dumps(rec["seq"]) not in seen:
@@ -446,6 +454,10 @@ def run(ctx):
             rp = keep(ctx, f"violation_{tag}_{len(ctx.violations)}.ndjson", (x.get("definer") or []) + x["records"])
             ctx.violation(f"[{x['inv'] or 'trace rejected'}] suggested key={key}: {text}", rp)
     ctx.evaluations = nrec
+    if notes["dirty"]:
+        ctx.log(f"note (not judged): {notes['dirty']} recycled Builder/Compiler states still report has_dirty_section_links()=true "
+                "(BaseBuilder_clear_all does not reset _dirty_section_links; it only schedules an idempotent update_section_links())")
+        ctx.extra["informational_dirty_section_links_after_recycling"] = notes["dirty"]
 
     # ---- 5. listed findings: re-execute each one alone, unmasked ----
     tcfg0 = trace_cfg(ctx, set())
